@@ -145,7 +145,8 @@ func (self *visitorUserNode) decode(bytes []byte, desc *proto.TypeDescriptor) ([
 		self.stk[self.sp].state = visitorUserNodeState{msgDesc: convDesc, fieldDesc: nil, lenPos: -1}
 		self.stk[self.sp].typ = objStkType
 	}
-	str := rt.Mem2Str(bytes)
+	// sonic's skippers load whole vectors and may read a few bytes past the document
+	str := rt.Mem2Str(rt.GuardTail(bytes))
 	if err := ast.Preorder(str, self, nil); err != nil {
 		return nil, err
 	}
